@@ -635,7 +635,7 @@ func cmdLists(args []string) {
 	for i := 0; i < *n; i++ {
 		r := newRng(seed*7_000_003 + uint64(i))
 		cfg := randCfg(r, true)
-		if i%2 == 1 { // a chain whose genesis numbering does not start at 1 (a chain restarted from an export, a fork)
+		if i%2 == 1 && cfg.startWrk == 0 { // a chain whose genesis numbering does not start at 1 (a chain restarted from an export, a fork)
 			cfg.startPO, cfg.startWrk, cfg.startBcn = uint64(2+r.intn(40)), uint64(2+r.intn(40)), uint64(2+r.intn(40))
 		}
 		c := newChain(cfg)
